@@ -133,6 +133,8 @@ pub struct RenderKnobs {
     pub use_extend: bool,
     /// JSON: include the built-in scalars and `__` introspection types
     pub json_builtins: bool,
+    /// SDL: re-declare the built-in scalars (`scalar ID` …), as some schema printers do
+    pub sdl_builtin_scalars: bool,
     /// JSON: wrap in `{"data": ..}`
     pub json_wrapped: bool,
     /// JSON: include `isOneOf`
@@ -149,6 +151,7 @@ impl Default for RenderKnobs {
             explicit_schema_block: false,
             use_extend: false,
             json_builtins: true,
+            sdl_builtin_scalars: false,
             json_wrapped: false,
             json_is_one_of: true,
             json_directives: true,
@@ -237,6 +240,11 @@ impl ASchema {
                 out.push_str(&format!("  subscription: {}\n", q));
             }
             out.push_str("}\n\n");
+        }
+        if k.sdl_builtin_scalars {
+            for b in BUILTIN_SCALARS {
+                out.push_str(&format!("scalar {}\n\n", b));
+            }
         }
         let mut exts = String::new();
         for t in &self.types {
